@@ -27,9 +27,27 @@ CHECKS = {
    design='DESIGN.md 5/C19, 10'),
 }
 
+XF_NOTE = ('Trusted: Coq 8.16.1 kernel; extraction (ExtrOcamlBasic only); ocaml/driver_xform.ml; harness/xform_check.py, elab.py, netgen.py, ir_world.py; '
+           'the hand-written models coq/theories/Xform/{Clone,Xform}.v (+ IR/*.v) are tied to /repo only through the correspondence run. '
+           'Netlists are the well-formed ones netgen builds; the module-level counters of uniquify.py/flatten.py are reset per case on both sides. '
+           'All theorems: Closed under the global context.')
+CHECKS.update({
+ 'C07': dict(engine='xform', note=XF_NOTE, technique='Coq proof (frame/freshness of small-element clones) + correspondence of the three-phase clone model + identity/structure/independence oracle',
+   text='proof (partial): clone of a wire / inner pin yields exactly one fresh detached unconnected element and changes no other field of the heap (Props/C07.v). For library/definition/netlist roots the full statement C07_full (closed + frame) is kept as a Definition; on every run the Gallina model of _clone/_clone_rip_and_replace/_clone_rip for all eight kinds is compared with the real clone() on every element of random hierarchical netlists (full-state dumps), and the Clone oracle checks on the implementation: no shared element, canonical structure equal, copy well-formed, same query answers, source unmodified except documented reference-set registrations, independence under later edits/uniquify/flatten of either side.',
+   design='DESIGN.md 5/C07, 10'),
+ 'C08': dict(engine='xform', note=XF_NOTE, technique='Coq proof (fixpoint on unique designs) + correspondence of the uniquify model + union-find elaboration oracle',
+   text='proof (partial): on a design whose walked instances are all unique or leaves, uniquify returns the state unchanged (Props/C08.v). The full statement C08_full is kept as a Definition; on every run the model of uniquify (BFS, Definition.clone, add_definition at index+1, rename with the module counter, reference change) is compared with the implementation (full-state dumps incl. announcements) and an independent elaboration (instance tree, leaf types, endpoint partition by union-find) is compared before/after, plus uniqueness, well-formedness, fresh names, idempotence.',
+   design='DESIGN.md 5/C08, 10'),
+ 'C09': dict(engine='xform', note=XF_NOTE, technique='Coq proof (flatten preserves the C01/C02 invariants, by composition of the step lemmas) + correspondence of the flatten model + elaboration oracle',
+   text='proof (partial): flatten, modelled literally as a composition of the public IR calls, preserves the containment invariant and the reference-set invariant for any netlist, fuel and outcome except the stuck one (Props/C09.v). The connectivity clause C09_full is kept as a Definition; on every run the flatten model is compared with the implementation (full-state dumps) and the independent elaboration before flatten is compared with a direct reading of the flattened top (leaf per leaf path, names, endpoint partition iff).',
+   design='DESIGN.md 5/C09, 10'),
+})
+
 ENGINES = [
  {'name': 'ir', 'path': 'coq/theories/IR + ocaml/driver_ir.ml + harness/ir_*.py', 'serves_properties': ['C01', 'C02', 'C10', 'C14', 'C19'],
   'kind_free_text': 'Gallina model of all public IR mutators and of the namespace manager, extracted to OCaml; differential run against the real spydrnet with canonical dumps after every call'},
+ {'name': 'xform', 'path': 'coq/theories/Xform + ocaml/driver_xform.ml + harness/xform_check.py', 'serves_properties': ['C07', 'C08', 'C09'],
+  'kind_free_text': 'Gallina model of clone (all kinds), uniquify and flatten on top of the IR model; differential run on hierarchical netlists; identity/structure/elaboration oracles'},
 ]
 
 checks = []
